@@ -18,10 +18,10 @@ CHECK = {
     "tests": [
         T("inputroot", "TestC17InputRootModel",
           {"checks": 2000, "shards": 2, "timeout": 300},
-          {"checks": 12000, "shards": 16, "timeout": 1500}, env=ENV),
+          {"checks": 10000, "shards": 16, "timeout": 1500}, env=ENV),
         T("inputroot", "TestC17MalformedAndFaults",
           {"checks": 50, "shards": 2, "timeout": 300},
-          {"checks": 400, "shards": 16, "timeout": 1500}, env=ENV),
+          {"checks": 300, "shards": 16, "timeout": 1500}, env=ENV),
         T("inputroot", "TestC17CASFilesImmutable",
           {"checks": 1200, "shards": 2, "timeout": 300},
           {"checks": 10000, "shards": 8, "timeout": 1500}, env=ENV),
